@@ -483,14 +483,341 @@ Proof.
     cbn [nth]. apply IH. lia.
 Qed.
 
-Lemma cle_firstn l b k : StronglySorted lt l -> k <= cle l b ->
-  cle (firstn k l) b = k.
+Lemma cle_firstn l b b' k : StronglySorted lt l -> k <= cle l b -> b <= b' ->
+  cle (firstn k l) b' = k.
 Proof.
-  intros Hs Hk. pose proof (cnt_le_length (fun y => y <=? b) l) as Hlen.
+  intros Hs Hk Hb. pose proof (cnt_le_length (fun y => y <=? b) l) as Hlen.
   fold (cle l b) in Hlen.
   unfold cle. rewrite cnt_all; [apply firstn_length_le; lia|].
   intros y Hy. apply Nat.leb_le. apply (In_nth _ _ 0) in Hy.
   destruct Hy as [i [Hi <-]]. rewrite firstn_length_le in Hi by lia.
   rewrite nth_firstn_lt' by exact Hi.
+  assert (nth i l 0 <= b); [|lia].
   apply cle_prefix; [assumption|lia|lia].
+Qed.
+
+Lemma nth_skipn' (l : list nat) : forall k j, nth j (skipn k l) 0 = nth (k + j) l 0.
+Proof.
+  induction l as [|a l IH]; intros k j.
+  - rewrite skipn_nil. destruct j, k; reflexivity.
+  - destruct k as [|k]; [reflexivity|]. cbn [skipn Nat.add nth]. apply IH.
+Qed.
+
+Lemma span_repr c t s e : repr c t -> s <= e -> e <= byte_len t ->
+  span_line_bytes c s e =
+  Done (nth (cle (nls_of t) s - 1) (nls_of t) 0,
+        if cle (nls_of t) e =? length (nls_of t) then byte_len t
+        else nth (cle (nls_of t) e) (nls_of t) 0 - 1).
+Proof.
+  intros Hr Hse He. unfold span_line_bytes, span_line_bytes_gen.
+  rewrite (feed_len_repr c t Hr). destruct Hr as [Hn _]. rewrite Hn.
+  assert (Hs : StronglySorted lt (nls_of t)) by apply nls_of_sorted.
+  assert (Hk1 : 1 <= cle (nls_of t) s) by apply cle_nls_pos.
+  assert (Hklen : cle (nls_of t) s <= length (nls_of t)) by apply cnt_le_length.
+  set (nls := nls_of t) in *. set (k := cle nls s) in *.
+  match goal with |- obind ?X _ = _ =>
+    assert (Hst : X = Done (nth (k - 1) nls 0, k)) end.
+  { unfold bsearch. pose proof (bsearch_go_spec nls Hs s 0) as Hb.
+    destruct (bsearch_go nls s 0) as [j|j]; destruct Hb as (Hj & Hx & Hc);
+      cbn [Nat.add] in Hj; fold k in Hc.
+    - rewrite Hj, (nth_error_nth_checked _ _ _ Hx). cbn [obind]. do 2 f_equal.
+      + rewrite Hc. replace (S (clt nls s) - 1) with (clt nls s) by lia.
+        symmetry. apply nth_error_nth. exact Hx.
+      + lia.
+    - rewrite Hj, <- Hc. rewrite (proj2 (Nat.eqb_neq k 0)) by lia.
+      rewrite nth_checked_lt by lia. reflexivity. }
+  rewrite Hst. cbn [obind].
+  rewrite (proj2 (Nat.ltb_ge (length nls) k)) by lia.
+  match goal with |- obind ?X _ = _ =>
+    assert (Hen : X = Done (if cle nls e =? length nls then byte_len t
+                            else nth (cle nls e) nls 0 - 1)) end.
+  { assert (Hs2 : StronglySorted lt (skipn k nls)) by (apply StronglySorted_skipn; exact Hs).
+    assert (Hsplit : cle nls e = k + cle (skipn k nls) e).
+    { rewrite <- (firstn_skipn k nls) at 1. unfold cle at 1. rewrite cnt_app.
+      fold (cle (firstn k nls) e). fold (cle (skipn k nls) e).
+      rewrite (cle_firstn nls s e k Hs); [reflexivity|fold k; lia|exact Hse]. }
+    assert (Hlen2 : length (skipn k nls) = length nls - k) by apply skipn_length.
+    unfold bsearch. pose proof (bsearch_go_spec (skipn k nls) Hs2 e 0) as Hb.
+    destruct (bsearch_go (skipn k nls) e 0) as [j|j]; destruct Hb as (Hj & Hx & Hc);
+      cbn [Nat.add] in Hj; subst j.
+    - set (m := clt (skipn k nls) e) in *.
+      assert (Hm : m < length (skipn k nls)).
+      { apply nth_error_Some. rewrite Hx. discriminate. }
+      assert (Hxe : nth (k + m) nls 0 = e).
+      { rewrite <- nth_skipn'. apply nth_error_nth. exact Hx. }
+      rewrite Hsplit, Hc.
+      destruct (k + m =? length nls - 1) eqn:E1.
+      + apply Nat.eqb_eq in E1.
+        rewrite (proj2 (Nat.eqb_eq (k + S m) (length nls))) by lia. reflexivity.
+      + apply Nat.eqb_neq in E1.
+        rewrite (proj2 (Nat.eqb_neq (k + S m) (length nls))) by lia.
+        rewrite nth_checked_lt by lia. cbn [obind].
+        replace (k + m + 1) with (k + S m) by lia.
+        assert (Hlt : nth (k + m) nls 0 < nth (k + S m) nls 0)
+          by (apply sorted_nth_lt; [exact Hs|lia|lia]).
+        rewrite (proj2 (Nat.eqb_neq (nth (k + S m) nls 0) 0)) by lia. reflexivity.
+    - set (m := clt (skipn k nls) e) in *.
+      assert (Hm : m <= length (skipn k nls)) by apply cnt_le_length.
+      rewrite Hsplit, Hc.
+      destruct (k + m =? length nls) eqn:E1; [reflexivity|].
+      apply Nat.eqb_neq in E1.
+      rewrite nth_checked_lt by lia. cbn [obind].
+      assert (Hgt : ~ nth (k + m) nls 0 <= e).
+      { intros Hle. apply (cle_prefix nls e Hs) in Hle; lia. }
+      rewrite (proj2 (Nat.eqb_neq (nth (k + m) nls 0) 0)) by lia. reflexivity. }
+  rewrite Hen. reflexivity.
+Qed.
+
+(* the end of the line containing [e] *)
+Lemma line_end_nls t e : e <= byte_len t ->
+  line_end_spec t e
+    (if cle (nls_of t) e =? length (nls_of t) then byte_len t
+     else nth (cle (nls_of t) e) (nls_of t) 0 - 1).
+Proof.
+  intros He.
+  assert (Hs : StronglySorted lt (nls_of t)) by apply nls_of_sorted.
+  assert (Hilen : cle (nls_of t) e <= length (nls_of t)) by apply cnt_le_length.
+  assert (HS : forall p, In p (nlpos t) -> In (S p) (nls_of t)).
+  { intros p Hp. right. apply in_map. exact Hp. }
+  set (nls := nls_of t) in *. set (i := cle nls e) in *.
+  destruct (i =? length nls) eqn:Ei.
+  - apply Nat.eqb_eq in Ei. split; [right; reflexivity|]. split; [exact He|].
+    intros p Hp Hep. exfalso. apply HS in Hp. apply (In_nth _ _ 0) in Hp.
+    destruct Hp as [j [Hj Hjp]].
+    assert (Hle : nth j nls 0 <= e) by (apply cle_prefix; [exact Hs|exact Hj|fold i; lia]).
+    lia.
+  - apply Nat.eqb_neq in Ei.
+    assert (Hgt : ~ nth i nls 0 <= e).
+    { intros Hle. apply (cle_prefix nls e Hs) in Hle; [fold i in Hle; lia|lia]. }
+    assert (Hin : In (nth i nls 0) nls) by (apply nth_In; lia).
+    destruct Hin as [H0|Hin]; [lia|].
+    apply in_map_iff in Hin. destruct Hin as [q [Hq Hqin]].
+    rewrite <- Hq in *. replace (S q - 1) with q by lia.
+    split; [left; exact Hqin|]. split; [lia|].
+    intros p Hp Hep. apply HS in Hp. apply (In_nth _ _ 0) in Hp.
+    destruct Hp as [j [Hj Hjp]].
+    assert (Hij : i <= j).
+    { destruct (le_lt_dec i j) as [Hle|Hlt]; [exact Hle|exfalso].
+      assert (nth j nls 0 <= e) by (apply cle_prefix; [exact Hs|exact Hj|fold i; lia]).
+      lia. }
+    pose proof (sorted_nth_le nls Hs i j Hij Hj) as Hmono. lia.
+Qed.
+
+Lemma span_lines_spec : span_lines_spec_stmt.
+Proof.
+  intros text c s e Hc Hse He. apply cache_of_repr in Hc.
+  eexists. eexists. split; [apply (span_repr c text s e Hc Hse He)|].
+  split; [apply line_start_nls|apply line_end_nls; exact He].
+Qed.
+
+Lemma span_lines_orig_refuted : span_lines_orig_refuted_stmt.
+Proof.
+  exists [97; 10; 98; 10; 99]%N, (mk [97; 10; 98; 10; 99]%N), 2, 4.
+  split; [vm_compute; reflexivity|]. split; [lia|].
+  split; [vm_compute; lia|vm_compute; reflexivity].
+Qed.
+
+(* ------------------------------------------------------------------------ *)
+(* byte_to_line_col                                                         *)
+
+Lemma boundary_split s : forall k b, In b (boundaries_from s k) ->
+  exists t1 t2, s = t1 ++ t2 /\ b = k + byte_len t1.
+Proof.
+  induction s as [|ch s IH]; intros k b Hb; cbn [boundaries_from] in Hb.
+  - destruct Hb as [<-|[]]. exists [], []. split; [reflexivity|cbn; lia].
+  - destruct Hb as [<-|Hb].
+    + exists [], (ch :: s). split; [reflexivity|cbn; lia].
+    + apply IH in Hb. destruct Hb as (t1 & t2 & -> & ->).
+      exists (ch :: t1), t2. split; [reflexivity|cbn [byte_len]; lia].
+Qed.
+
+Lemma slice_from_pos ch s i : 0 < i ->
+  slice_from (ch :: s) i =
+  if len_utf8 ch <=? i then slice_from s (i - len_utf8 ch) else Panic.
+Proof. destruct i; [lia|reflexivity]. Qed.
+
+Lemma slice_from_app t1 t2 : slice_from (t1 ++ t2) (byte_len t1) = Done t2.
+Proof.
+  induction t1 as [|ch t1 IH]; cbn [app byte_len]; [destruct t2; reflexivity|].
+  pose proof (len_utf8_pos ch) as Hpos. rewrite slice_from_pos by lia.
+  rewrite (proj2 (Nat.leb_le _ _)) by lia.
+  replace (len_utf8 ch + byte_len t1 - len_utf8 ch) with (byte_len t1) by lia.
+  exact IH.
+Qed.
+
+(* a text splits at the start of its last line *)
+Lemma last_line_split t : exists a seg,
+  t = a ++ seg /\ byte_len a = last (nls_of t) 0 /\
+  Forall (fun ch => (ch =? NL)%N = false) seg.
+Proof.
+  induction t as [|ch t' IH] using rev_ind.
+  - exists [], []. split; [reflexivity|]. split; [reflexivity|constructor].
+  - rewrite nls_of_app. cbn [nlpos_from]. destruct (ch =? NL)%N eqn:E.
+    + exists (t' ++ [ch]), []. split; [rewrite app_nil_r; reflexivity|].
+      split; [|constructor]. cbn [map]. rewrite last_last, byte_len_app.
+      cbn [byte_len]. rewrite (len_utf8_NL _ E). lia.
+    + destruct IH as (a & seg & Ht & Ha & Hseg). cbn [map]. rewrite app_nil_r.
+      exists a, (seg ++ [ch]). split; [rewrite Ht at 1; rewrite app_assoc; reflexivity|].
+      split; [exact Ha|]. apply Forall_app. split; [exact Hseg|].
+      constructor; [exact E|constructor].
+Qed.
+
+(* chars_between *)
+Lemma cb_app x y k from to :
+  chars_between (x ++ y) k from to =
+  chars_between x k from to ++ chars_between y (k + byte_len x) from to.
+Proof.
+  revert k. induction x as [|ch x IH]; intros k; cbn [app chars_between byte_len].
+  - f_equal. lia.
+  - rewrite IH, <- app_assoc. do 3 f_equal. lia.
+Qed.
+
+Lemma cb_before x : forall k from to, k + byte_len x <= from ->
+  chars_between x k from to = [].
+Proof.
+  induction x as [|ch x IH]; intros k from to H; cbn [chars_between byte_len] in *;
+    [reflexivity|].
+  pose proof (len_utf8_pos ch) as Hpos.
+  rewrite (proj2 (Nat.leb_gt from k)) by lia. cbn [andb app]. apply IH. lia.
+Qed.
+
+Lemma cb_after x : forall k from to, to <= k -> chars_between x k from to = [].
+Proof.
+  induction x as [|ch x IH]; intros k from to H; cbn [chars_between]; [reflexivity|].
+  rewrite (proj2 (Nat.ltb_ge k to)) by lia. rewrite andb_false_r. cbn [app].
+  apply IH. lia.
+Qed.
+
+Lemma cb_in x : forall k from to, from <= k -> k + byte_len x <= to ->
+  chars_between x k from to = x.
+Proof.
+  induction x as [|ch x IH]; intros k from to H1 H2; cbn [chars_between byte_len] in *;
+    [reflexivity|].
+  pose proof (len_utf8_pos ch) as Hpos.
+  rewrite (proj2 (Nat.leb_le from k)) by lia.
+  rewrite (proj2 (Nat.ltb_lt k to)) by lia. cbn [andb app]. f_equal. apply IH; lia.
+Qed.
+
+Lemma char_at_split t1 t2 :
+  char_at (t1 ++ t2) (byte_len t1) = match t2 with ch :: _ => Some ch | [] => None end.
+Proof.
+  unfold char_at. rewrite cb_app, cb_before by lia. cbn [app Nat.add].
+  destruct t2 as [|ch t2]; [reflexivity|]. cbn [chars_between].
+  rewrite Nat.leb_refl, (proj2 (Nat.ltb_lt _ _)) by lia. cbn [andb app]. reflexivity.
+Qed.
+
+Lemma cb_seg a seg t2 :
+  chars_between (a ++ seg ++ t2) 0 (byte_len a) (byte_len (a ++ seg)) = seg.
+Proof.
+  rewrite byte_len_app, !cb_app. cbn [Nat.add].
+  rewrite cb_before by lia. rewrite cb_in by lia. rewrite cb_after by lia.
+  rewrite app_nil_r. reflexivity.
+Qed.
+
+(* the column loop on a segment without newlines *)
+Definition skip_after (seg : list N) (skip : bool) : bool :=
+  match rev seg with prev :: _ => (prev =? CR)%N | [] => skip end.
+
+Lemma col_loop_seg seg ch rest : Forall (fun x => (x =? NL)%N = false) seg ->
+  forall c_off column skip,
+  col_loop (seg ++ ch :: rest) c_off (c_off + byte_len seg) column skip =
+  column + length seg + (if skip_after seg skip && (ch =? NL)%N then 0 else 1).
+Proof.
+  induction 1 as [|x seg Hx Hseg IH]; intros c_off column skip.
+  - cbn [app col_loop byte_len length]. rewrite Nat.add_0_r, Nat.eqb_refl.
+    unfold skip_after. cbn [rev]. destruct (skip && (ch =? NL)%N); lia.
+  - cbn [app col_loop byte_len length]. rewrite Hx, andb_false_r.
+    pose proof (len_utf8_pos x) as Hpos.
+    rewrite (proj2 (Nat.eqb_neq c_off _)) by lia.
+    replace (c_off + (len_utf8 x + byte_len seg))
+      with (c_off + len_utf8 x + byte_len seg) by lia.
+    rewrite IH.
+    assert (Hsk : skip_after seg (if (x =? CR)%N then true else false)
+                  = skip_after (x :: seg) skip).
+    { unfold skip_after. cbn [rev]. destruct (rev seg); cbn [app];
+        [destruct (x =? CR)%N|]; reflexivity. }
+    rewrite Hsk. lia.
+Qed.
+
+Lemma cle_nls_split t1 t2 :
+  cle (nls_of (t1 ++ t2)) (byte_len t1) = length (nls_of t1).
+Proof.
+  rewrite nls_of_app. unfold cle. rewrite cnt_app.
+  rewrite cnt_all
+    by (intros y Hy; apply Nat.leb_le; apply nls_of_le; exact Hy).
+  rewrite cnt_zero; [lia|].
+  intros y Hy. apply in_map_iff in Hy. destruct Hy as [z [<- Hz]].
+  apply nlpos_from_bounds in Hz. apply Nat.leb_gt. lia.
+Qed.
+
+Lemma st_nls_split t1 t2 :
+  nth (cle (nls_of (t1 ++ t2)) (byte_len t1) - 1) (nls_of (t1 ++ t2)) 0
+  = last (nls_of t1) 0.
+Proof.
+  rewrite cle_nls_split, nls_of_app, app_nth1, last_nth; [reflexivity|].
+  cbn [nls_of length]. lia.
+Qed.
+
+Lemma col_spec_split a seg t2 :
+  col_spec ((a ++ seg) ++ t2) (byte_len a) (byte_len (a ++ seg)) =
+  match t2 with
+  | [] => length seg + 1
+  | ch :: _ => length seg + (if skip_after seg false && (ch =? NL)%N then 0 else 1)
+  end.
+Proof.
+  unfold col_spec. rewrite char_at_split, <- (app_assoc a seg t2), cb_seg.
+  unfold skip_after. destruct t2 as [|ch t2].
+  - destruct (rev seg); reflexivity.
+  - destruct (rev seg) as [|prev r]; [reflexivity|].
+    destruct (ch =? NL)%N, (prev =? CR)%N; cbn [andb]; lia.
+Qed.
+
+Lemma line_col_repr c t1 t2 : repr c (t1 ++ t2) ->
+  byte_to_line_col c (t1 ++ t2) (byte_len t1) =
+  Done (Some (line_spec (t1 ++ t2) (byte_len t1),
+              col_spec (t1 ++ t2) (last (nls_of t1) 0) (byte_len t1))).
+Proof.
+  intros Hr.
+  destruct (last_line_split t1) as (a & seg & Ht1 & Ha & Hseg). subst t1.
+  rewrite <- Ha, col_spec_split, <- cle_nls_line_spec.
+  assert (Hoff : byte_len (a ++ seg) <= byte_len ((a ++ seg) ++ t2))
+    by (rewrite (byte_len_app (a ++ seg) t2); lia).
+  assert (Hk : nth_checked (nls_of ((a ++ seg) ++ t2)) (length (nls_of (a ++ seg)) - 1)
+               = Done (byte_len a)).
+  { rewrite Ha, <- (st_nls_split (a ++ seg) t2), cle_nls_split.
+    apply nth_checked_lt. rewrite (nls_of_app (a ++ seg) t2), app_length.
+    cbn [nls_of length]. lia. }
+  assert (Hlen : length (nls_of (a ++ seg)) <= length (nls_of ((a ++ seg) ++ t2)))
+    by (rewrite (nls_of_app (a ++ seg) t2), app_length; lia).
+  assert (Hpos : 1 <= length (nls_of (a ++ seg))) by (cbn [nls_of length]; lia).
+  unfold byte_to_line_col. rewrite (feed_len_repr _ _ Hr). cbn [obind].
+  rewrite Nat.eqb_refl. cbn [negb]. rewrite orb_false_r.
+  rewrite (proj2 (Nat.ltb_ge _ _)) by exact Hoff.
+  rewrite (line_num_repr c _ _ Hr) by exact Hoff. cbn [obind].
+  rewrite cle_nls_split.
+  destruct t2 as [|ch t2].
+  - rewrite app_nil_r in *. rewrite Nat.eqb_refl, (last_newline_repr _ _ Hr), <- Ha.
+    cbn [obind]. rewrite slice_from_app. cbn [obind].
+    destruct Hr as [Hn _]. rewrite Hn. reflexivity.
+  - pose proof (len_utf8_pos ch) as Hch.
+    rewrite (proj2 (Nat.eqb_neq (byte_len (a ++ seg)) (byte_len ((a ++ seg) ++ ch :: t2))))
+      by (rewrite (byte_len_app (a ++ seg) (ch :: t2)); cbn [byte_len]; lia).
+    unfold line_num_to_byte. destruct Hr as [Hn _]. rewrite Hn.
+    rewrite (proj2 (Nat.ltb_ge _ _)) by exact Hlen.
+    rewrite (proj2 (Nat.eqb_neq _ 0)) by lia. cbn [orb].
+    rewrite Hk. cbn [obind].
+    rewrite <- (app_assoc a seg (ch :: t2)), slice_from_app. cbn [obind].
+    rewrite (proj2 (Nat.ltb_ge _ _)) by (rewrite byte_len_app; lia).
+    replace (byte_len (a ++ seg) - byte_len a) with (0 + byte_len seg)
+      by (rewrite byte_len_app; lia).
+    rewrite (col_loop_seg seg ch t2 Hseg). reflexivity.
+Qed.
+
+Lemma line_col_spec : line_col_spec_stmt.
+Proof.
+  intros text c off Hc Hb. apply cache_of_repr in Hc.
+  apply boundary_split in Hb. destruct Hb as (t1 & t2 & -> & ->). cbn [Nat.add].
+  exists (last (nls_of t1) 0). split.
+  - rewrite <- (st_nls_split t1 t2). apply line_start_nls.
+  - apply line_col_repr. exact Hc.
 Qed.
